@@ -528,12 +528,11 @@ impl StateStore {
             .duration_since(UNIX_EPOCH)
             .unwrap()
             .as_millis();
-        let checkpoint_id = self.next_checkpoint_id(now_ms);
         #[cfg(feature = "verif-hooks")]
-        let checkpoint_id = match crate::verif_hooks::clock_ms() {
-            Some(ms) => format!("checkpoint_{}", ms),
-            None => checkpoint_id,
-        };
+        let now_ms = crate::verif_hooks::clock_ms()
+            .map(u128::from)
+            .unwrap_or(now_ms);
+        let checkpoint_id = self.next_checkpoint_id(now_ms);
 
         let state = self.state.read().unwrap();
         let snapshot: HashMap<String, Value> = state
